@@ -1,4 +1,4 @@
-(* C12 - HSplit/VSplit divide the available space.
+(* C12 - HSplit/VSplit divide_pinned the available space.
 
    Model of (as coded in /repo):
      layout/dimension.py   Dimension.__init__, sum_layout_dimensions,
@@ -193,10 +193,12 @@ Inductive dres :=
 | OutOfFuel           (* a loop did not finish within the fuel *)
 | CtorErr.            (* sum_layout_dimensions raised *)
 
-(* Body shared by _divide_heights (after `if not self.children`) and
-   _divide_widths, on the dimensions of _all_children.  `done` is
-   get_app().is_done (HSplit only; VSplit always runs the second loop). *)
-Definition divide (fuel : nat) (done : bool) (dims : list dim) (avail : Z) : dres :=
+(* PINNED: the body shared by _divide_heights (after `if not self.children`)
+   and _divide_widths as it was before commit 8a80803 ("fix: HSplit/VSplit
+   hung or raised ValueError with zero-weight children"), on the dimensions
+   of _all_children.  `done` is get_app().is_done (HSplit only; VSplit
+   always runs the second loop).  Kept for the _pinned theorems. *)
+Definition divide_pinned (fuel : nat) (done : bool) (dims : list dim) (avail : Z) : dres :=
   match dims with
   | [] => Sizes []
   | _ =>
@@ -225,9 +227,10 @@ Definition divide (fuel : nat) (done : bool) (dims : list dim) (avail : Z) : dre
   end.
 
 (* ------------------------------------------------------------------ *)
-(* The same division with fixes/C12-zero-weight-children.patch applied:
-   without any weighted child everybody stays at the minimum; the stops are
-   capped by what the weighted children can still absorb. *)
+(* The division as it is in /repo now (commit 8a80803): without any weighted
+   child everybody stays at the minimum (`if not weighted: return sizes`);
+   both stops are additionally capped by
+   `sum(sizes) + sum(cap[k] - sizes[k] for k in weighted)`. *)
 
 Fixpoint room (ws caps sizes : list Z) : Z :=
   match ws, caps, sizes with
@@ -235,7 +238,7 @@ Fixpoint room (ws caps sizes : list Z) : Z :=
   | _, _, _ => 0
   end.
 
-Definition divide_fixed (fuel : nat) (done : bool) (dims : list dim) (avail : Z) : dres :=
+Definition divide (fuel : nat) (done : bool) (dims : list dim) (avail : Z) : dres :=
   match dims with
   | [] => Sizes []
   | _ =>
@@ -293,8 +296,8 @@ Definition split_divide_with (core : nat -> bool -> list dim -> Z -> dres)
     end
   else core fuel false (all_children align pad cs) avail.
 
+Definition split_divide_pinned := split_divide_with divide_pinned.
 Definition split_divide := split_divide_with divide.
-Definition split_divide_fixed := split_divide_with divide_fixed.
 
 (* regions drawn: (kind, offset, extent); kind 0 = k-th entry of
    _all_children (in order), 1 = the remaining-space window, 2 = the
@@ -377,11 +380,11 @@ Definition sx_dres (r : dres) (regs : list (Z * Z * Z)) : sx :=
 Definition nat_of_Z (z : Z) : nat := Z.to_nat z.
 
 (* case:
-     (0 orient done align pad children avail start fuel)   split: divide + draw
+     (0 orient done align pad children avail start fuel)   split: divide_pinned + draw
      (1 children)                                          sum_layout_dimensions
      (2 children)                                          max_layout_dimensions
      (3 weights n)                                         first n of take_using_weights(range, weights)
-     (4 ...as 0...)                                        split with fixes/C12-zero-weight-children.patch applied
+     (4 ...as 0...)                                        split as it was before the zero-weight fix (pinned)
    children = list of raw dimensions; a raw dimension whose constructor
    raises makes the whole case answer (4) / (5) (first in list order; the
    padding is constructed before the children). *)
@@ -404,7 +407,7 @@ Definition run_C12 (c : sx) : sx :=
   | L [A 0; A orient; dn; A align; pad; L cs; A avail; A start; A fuel] =>
       run_split divide orient dn align pad cs avail start fuel
   | L [A 4; A orient; dn; A align; pad; L cs; A avail; A start; A fuel] =>
-      run_split divide_fixed orient dn align pad cs avail start fuel    (* the patched code *)
+      run_split divide_pinned orient dn align pad cs avail start fuel    (* the code before commit 8a80803 *)
   | L [A 1; L cs] =>
       match map_opt as_rawdim cs with
       | Some rcs => match collect_dims rcs with
